@@ -88,7 +88,7 @@ func c19Race(c *Ctx) {
 		sub, mode string
 		rounds    int
 	}
-	jobs := []job{{"c19-racecanary", "race-canary", 1}, {"c19-hammer", "race", rounds}, {"c19-confirmrace", "race-confirmrace", 3}, {"c19-mineinsert", "race-mineinsert", 1}, {"c19-maprace", "race-maprace", 2}, {"c19-restart", "race-restart", 2}}
+	jobs := []job{{"c19-racecanary", "race-canary", 1}, {"c19-hammer", "race", rounds}, {"c19-confirmrace", "race-confirmrace", 3}, {"c19-mineinsert", "race-mineinsert", 1}, {"c19-maprace", "race-maprace", 2}, {"c19-restart", "race-restart", 2}, {"c19-lastsig", "race-lastsig", 2000}}
 	all := map[string]*c19RacePair{}
 	reports := 0
 	for _, j := range jobs {
